@@ -466,13 +466,22 @@ structure Moved (elim : List Cand) (a a' : Alloc) : Prop where
   keys : KeysNodup a → KeysNodup a'
   nonneg : NonNeg a → NonNeg a'
   keep_none : none ∈ allocKeys a → none ∈ allocKeys a'
+  grow : NonNeg a → ∀ c, c ∉ elim → totalOf a c ≤ totalOf a' c
   rests : RestsOK a → RestsOK a'
 
 theorem transferIf_moved {E : Engine} (hE : EngineOK E) {a a' : Alloc} {elim : List Cand} {ds ds' : List Draw}
     (h : transferIf E a elim ds = .ok (a', ds')) : Moved elim a a' := by
   rw [transferIf_eq] at h
   have hs := transfer_spec hE h
-  refine ⟨hs.held_eq, transfer_continuing hE h, hs.keys, hs.nonneg, hs.keep_none, ?_⟩
+  refine ⟨hs.held_eq, transfer_continuing hE h, hs.keys, hs.nonneg, hs.keep_none, ?_, ?_⟩
+  · intro hn c hc
+    apply hs.grow hn (some c)
+    intro d hd he
+    injection he with he
+    subst he
+    have := (List.mem_filter.mp hd).2
+    simp at this
+    exact hc this
   apply RestsOK.of_transfer hs
   intro t
   simp only [List.mem_filter, decide_eq_true_eq, decide_not, Bool.not_eq_eq_eq_not, Bool.not_true,
